@@ -15,4 +15,12 @@ PROPS = {
         'assumptions': ['handlers are identified by the function value stored; reflect.Value.Pointer equality identifies the scheme package of a registration'],
         'explanation': 'Theorems over all strings and all registration histories on a model of crypt.go; tie: generated registration list = documented list (Tie_regs), and crypt.Check vs the model on exhaustive small strings x histories with recording handlers.',
     },
+    'C11': {
+        'property_files': ['Properties/C11.v'],
+        'targets': ['Properties/C11.vo', 'Parse/ParseCases.vo'],
+        'trusted': ['Go channel/goroutine runtime: represented by the produced/consumed token discipline (C11_drained); goroutine exit is additionally observed with runtime.NumGoroutine',
+                    'modelled: hash/parse lex.go (literal state machine + structural lexer, proved equal), parse.go, node.go spans'],
+        'assumptions': ['strings.IndexAny/HasPrefix behave as index_any/has_prefix of Base/Bytes.v'],
+        'explanation': 'Theorems for all byte strings: the literal lexer state machine terminates within length+3 steps and equals the structural lexer; Parse equals an independent split-based reference parser (positions included); fails exactly on an empty/unterminated identifier; render(tree)+<=1 delimiter = input; spans; grouping; token discipline. Tie: VerifLex token streams and Parse trees vs the model on all strings <= 6 over {$ , _ = a} and random strings; property oracle on the implementation up to length 8 (quick) / 10 (thorough); goroutine count.',
+    },
 }
